@@ -247,6 +247,40 @@ theorem per_function_theorems :
 -- per site:     site_x, site_d, site_chstt, site_sub, site_sto, site_kr, site_nr, site_ar, site_cell, site_x_nbr, site_chstt_nbr,
 --               nbrs_site, env_site, dIndex_site, table_site_int, oppVec_site + the `_nat` lemmas of the generated formulas
 
+/-- the sizes the checked model gives its vectors are the sizes the sources give them: every `resize(…)` / sized
+constructor of the algorithm sources, as (file, vector, size expression).  (`Vec.replicate` calls of `Model/Checked*.lean`:
+`buildMeshKr` n·nr, `buildMeshKdGrid` ns·n·6, `buildMeshNeighbors` w·h·d·6, `setNeighbors` / `buildMeshKdGraph` / `nestedInit`
+n rows of nn[i]·ns, `scratchInit` ns·n, nr·n, 6·ns·n, n.) -/
+theorem vector_sizes_text :
+    Gen.vectorSizes = [
+      ("SimulationAlgorithm3DBase.hpp", "mesh_kr", "n_meshes*n_reactions,0"),
+      ("SimulationAlgorithm3DBase.hpp", "mesh_kd", "n_species*n_meshes*6,0"),
+      ("SimulationAlgorithmGraphBase.hpp", "mesh_neighbor_n", "n_meshes,0"),
+      ("SimulationAlgorithmGraphBase.hpp", "mesh_neighbor_index", "n_meshes"),
+      ("SimulationAlgorithmGraphBase.hpp", "mesh_neighbor_sfc", "n_meshes"),
+      ("SimulationAlgorithmGraphBase.hpp", "mesh_neighbor_dst", "n_meshes"),
+      ("SimulationAlgorithmGraphBase.hpp", "mesh_kr", "n_meshes*n_reactions,0"),
+      ("SimulationAlgorithmGraphBase.hpp", "mesh_kd_out", "n_meshes"),
+      ("SimulationAlgorithmGraphBase.hpp", "mesh_kd_in", "n_meshes"),
+      ("SimulationAlgorithmGraphBase.hpp", "mesh_kd_out[i]", "n_species*mesh_neighbor_n[i]"),
+      ("Euler3D.hpp", "mesh_dxdt", "n_species*n_meshes"),
+      ("EulerGraph.hpp", "mesh_dxdt", "n_species*n_meshes"),
+      ("TauLeap3D.hpp", "mesh_nr", "n_reactions*n_meshes"),
+      ("TauLeap3D.hpp", "mesh_nd", "6*n_species*n_meshes"),
+      ("TauLeapGraph.hpp", "mesh_nr", "n_reactions*n_meshes"),
+      ("TauLeapGraph.hpp", "mesh_nd", "n_meshes"),
+      ("TauLeapGraph.hpp", "mesh_nd[i]", "this->mesh_neighbor_n[i]*this->n_species"),
+      ("Gillespie3D.hpp", "mesh_ar", "n_reactions*n_meshes"),
+      ("Gillespie3D.hpp", "mesh_ad", "6*n_species*n_meshes"),
+      ("Gillespie3D.hpp", "mesh_a0r", "n_meshes"),
+      ("Gillespie3D.hpp", "mesh_a0d", "n_meshes"),
+      ("GillespieGraph.hpp", "mesh_ar", "n_reactions*n_meshes"),
+      ("GillespieGraph.hpp", "mesh_ad", "n_meshes"),
+      ("GillespieGraph.hpp", "mesh_ad[i]", "this->mesh_neighbor_n[i]*this->n_species"),
+      ("GillespieGraph.hpp", "mesh_a0r", "n_meshes"),
+      ("GillespieGraph.hpp", "mesh_a0d", "n_meshes"),
+      ("SimulationAlgorithm3DBase.hpp", "mesh_neighbors", "w*h*d*6")] := by decide +kernel
+
 /-! non-vacuity: a concrete valid set-up (periodic 2×1×1 grid, one species `A ->`, tau-leap, two requested times) -/
 
 def demoArgs : EngArgs :=
